@@ -54,12 +54,15 @@ TSilent == /\ (ChainFailed \/ Decide \/ GetDone \/ ChunkDone \/ ChunksThrough \/
 TPostFail == /\ More /\ failed /\ pc # "done" /\ cur.stage \notin {"hop", "answer", "failed"}
              /\ TEv.e \in {"v", "q", "a", "cut"} /\ TEv.ch.k \in {"c", "h"}
              /\ Adv(1) /\ UNCHANGED vars
+TConsume == /\ pc = "consume"
+            /\ IF failed \/ wrong THEN Consume /\ Keep
+               ELSE More /\ TEv.e = "c" /\ TEv.v = env.consumer /\ Consume /\ Adv(1)
 TEnd == /\ More /\ TEv.e = "end" /\ Finish
         /\ TEv.out = (IF failed THEN "fail" ELSE IF wrong THEN "wrong" ELSE "ok")
         /\ (TEv.out = "ok" => TEv.len = OutLen)
         /\ Adv(1)
 TraceNext == THop \/ TAnswer \/ TStartChunk \/ TSkipSlow \/ TStartHedge \/ TSlowRun \/ TSlowCut \/ TSilent
-             \/ TPostFail \/ TEnd
+             \/ TPostFail \/ TConsume \/ TEnd
 TraceSpec == TraceInit /\ [][TraceNext]_tvars
 
 Progress == TLCSet(tid, IF TLCGet(tid) < l THEN l ELSE TLCGet(tid))
